@@ -23,7 +23,7 @@ type NNICase struct {
 	Collect bool   `json:"collect,omitempty"` // true: the callback only stores the proposals, they are applied / undone in enumeration order afterwards
 }
 
-var rootMoves = []string{"reroot", "outgroup", "midpoint", "unroot", "rerootfirst", "rotate", "sort", "reinit", "graft", "nniapply"}
+var rootMoves = []string{"reroot", "outgroup", "midpoint", "unroot", "rerootfirst", "rotate", "sort", "reinit", "graft", "grafttip", "nniapply"}
 
 func init() {
 	Register(&Engine{
